@@ -12,7 +12,7 @@ Fixpoint p2u_go (t : text) (pl pc : N) (line ch idx : N) : N :=
   | [] => idx
   | c :: t' =>
       if N.eqb line pl then
-        if N.eqb ch pc || is_lf c || is_cr c then idx
+        if N.leb pc ch || is_lf c || is_cr c then idx
         else p2u_go t' pl pc line (ch + len16 c) (idx + len8 c)
       else if is_lf c then p2u_go t' pl pc (line + 1) ch (idx + len8 c)
       else p2u_go t' pl pc line ch (idx + len8 c)
@@ -65,15 +65,13 @@ Fixpoint split_lines (t : text) : list text :=
 Fixpoint content (l : text) : text :=
   match l with [] => [] | c :: l' => if is_cr c then [] else c :: content l' end.
 
-(** byte length of the longest prefix of [l] that a client reaches with
-    exactly [k] UTF-16 units; when [k] falls strictly inside a surrogate
-    pair or beyond the line the whole line is taken. *)
+(** byte length of the shortest prefix of [l] that covers [k] UTF-16 units: a column that
+    falls strictly inside a surrogate pair is rounded up to the end of that character, a
+    column beyond the line takes the whole line. ([k - len16 c] is truncated subtraction.) *)
 Fixpoint col8 (l : text) (k : N) : N :=
   match l with
   | [] => 0
-  | c :: l' => if N.eqb k 0 then 0
-               else if N.ltb k (len16 c) then len8 c + len8s l'
-               else len8 c + col8 l' (k - len16 c)
+  | c :: l' => if N.eqb k 0 then 0 else len8 c + col8 l' (k - len16 c)
   end.
 
 Fixpoint spec_go (ls : list text) (pl pc : N) : N :=
